@@ -330,18 +330,16 @@ where
 
         let mut new_attr = vec![];
         // First we extract all namespace declarations
-        for attr in tag.attrs.iter_mut().filter(|attr| {
-            attr.name.prefix == Some(namespace_prefix!("xmlns"))
-                || attr.name.local == local_name!("xmlns")
-        }) {
+        for attr in tag.attrs.iter_mut().filter(|attr| is_namespace_declaration(attr)) {
             self.declare_ns(attr);
         }
 
         // Then we bind those namespace declarations to attributes
-        for attr in tag.attrs.iter_mut().filter(|attr| {
-            attr.name.prefix != Some(namespace_prefix!("xmlns"))
-                && attr.name.local != local_name!("xmlns")
-        }) {
+        for attr in tag
+            .attrs
+            .iter_mut()
+            .filter(|attr| !is_namespace_declaration(attr))
+        {
             if self.bind_attr_qname(&mut present_attrs, &mut attr.name) {
                 new_attr.push(attr.clone());
             }
@@ -430,6 +428,12 @@ where
             self.sink.pop(&node);
         }
     }
+}
+
+/// `xmlns="..."` or `xmlns:prefix="..."` (but not `prefix:xmlns`, which is an ordinary attribute).
+fn is_namespace_declaration(attr: &Attribute) -> bool {
+    attr.name.prefix == Some(namespace_prefix!("xmlns"))
+        || (attr.name.prefix.is_none() && attr.name.local == local_name!("xmlns"))
 }
 
 fn current_node<Handle>(open_elems: &[Handle]) -> &Handle {
